@@ -163,8 +163,39 @@ def parse_type(t):
 
 
 # ---------------------------------------------------------------- definitions
+INTERIOR = {"Mutex", "RwLock", "OnceLock", "LazyLock", "Cell", "RefCell", "UnsafeCell", "OnceCell", "Lazy", "DashMap", "DashSet",
+            "ArcSwap", "ArcSwapOption", "SegQueue", "ArrayQueue", "ShardedLock", "ReentrantMutex", "FairMutex", "Condvar", "Once"}
+STATICS = []
+
+
+def is_interior(name):
+    return name in INTERIOR or name.startswith("Atomic")
+
+
+def interior_kinds(t):
+    """interior-mutability type constructors mentioned anywhere in a parsed type"""
+    out = set()
+    if t[0] == "path":
+        if is_interior(t[1]): out.add(t[1])
+        for a in t[2]: out |= interior_kinds(a)
+    elif t[0] in ("ref", "slice"):
+        out |= interior_kinds(t[1])
+    elif t[0] == "tuple":
+        for a in t[1]: out |= interior_kinds(a)
+    elif t[0] == "dyn":
+        out |= {n for n in re.findall(r"\w+", t[1]) if is_interior(n)}
+    return out
+
+
 def find_defs(src, origin, defs, unsafe_impls):
     src = strip_attrs(strip_comments(src))
+    for m in re.finditer(r"\bstatic\s+(mut\s+)?([A-Z_][A-Z0-9_]*)\s*:\s*([^=;]+)[=;]", src):
+        kinds = sorted({n for n in re.findall(r"\w+", m.group(3)) if is_interior(n)})
+        if m.group(1): kinds = ["static mut"] + kinds
+        if kinds:
+            STATICS.append(f"static {origin}::{m.group(2)}: {'+'.join(kinds)}")
+    for m in re.finditer(r"\bthread_local!", src):
+        STATICS.append(f"thread_local in {origin}")
     for m in re.finditer(r"unsafe\s+impl\s*(<[^{]*?>)?\s*(Send|Sync)\s+for\s+([\w:]+)", src):
         unsafe_impls.append({"trait": m.group(2), "type": m.group(3).split("::")[-1], "file": origin})
     for m in re.finditer(r"\b(struct|enum|union)\s+(\w+)\s*", src):
@@ -188,7 +219,7 @@ def find_defs(src, origin, defs, unsafe_impls):
         mw = re.match(r"\s*(where[^{;(]*)?", rest)
         i += mw.end()
         if i >= len(src): continue
-        fields = []
+        fields, labels = [], []
         if src[i] == "{":
             end = match_close(src, i, "{", "}")
             body = src[i + 1:end]
@@ -199,33 +230,38 @@ def find_defs(src, origin, defs, unsafe_impls):
                     tail = mv.group(2).strip()
                     if tail.startswith("("):
                         inner = tail[1:match_close(tail, 0, "(", ")")]
-                        fields += [re.sub(r"^pub(\([^)]*\))?\s+", "", x) for x in split_top(inner)]
+                        for j, x in enumerate(split_top(inner)):
+                            fields.append(re.sub(r"^pub(\([^)]*\))?\s+", "", x)); labels.append(f"{mv.group(1)}.{j}")
                     elif tail.startswith("{"):
                         inner = tail[1:match_close(tail, 0, "{", "}")]
-                        fields += [x.split(":", 1)[1].strip() for x in split_top(inner) if ":" in x]
+                        for x in split_top(inner):
+                            if ":" in x:
+                                fields.append(x.split(":", 1)[1].strip()); labels.append(f"{mv.group(1)}.{x.split(':', 1)[0].strip()}")
             else:
                 for f in split_top(body):
                     f = re.sub(r"^pub(\s*\([^)]*\))?\s+", "", f)
                     if ":" in f:
-                        fields.append(f.split(":", 1)[1].strip())
+                        fields.append(f.split(":", 1)[1].strip()); labels.append(f.split(":", 1)[0].strip())
         elif src[i] == "(":
             end = match_close(src, i, "(", ")")
             fields = [re.sub(r"^pub(\s*\([^)]*\))?\s+", "", x) for x in split_top(src[i + 1:end])]
+            labels = [str(j) for j in range(len(fields))]
         elif src[i] == ";":
             fields = []
         else:
             continue
-        defs.setdefault(name, []).append({"kind": kind, "generics": generics, "fields": fields, "file": origin})
+        defs.setdefault(name, []).append({"kind": kind, "generics": generics, "fields": fields, "labels": labels, "file": origin})
     for m in re.finditer(r"\btype\s+(\w+)\s*(<[^=]*>)?\s*=\s*([^;]+);", src):
         name, gen, rhs = m.group(1), m.group(2), m.group(3)
         if name in ("Err", "Error", "Output", "Item", "Target", "Language", "Kind"):   # associated types in impls
             continue
         generics = [re.match(r"\w+", g).group(0) for g in split_top(gen[1:-1]) if not g.startswith("'")] if gen else []
-        defs.setdefault(name, []).append({"kind": "alias", "generics": generics, "fields": [rhs.strip()], "file": origin})
+        defs.setdefault(name, []).append({"kind": "alias", "generics": generics, "fields": [rhs.strip()], "labels": ["="], "file": origin})
 
 
 def load_defs(repo):
     defs, unsafe_impls = {}, []
+    del STATICS[:]
     for crate in CRATES:
         base = os.path.join(repo, crate)
         for d, dirs, files in os.walk(base):
@@ -310,16 +346,23 @@ def build(repo):
     i = 0
     while i < len(g.order):
         name, args = g.order[i]
-        fields = []
+        fields, interior = [], []
         for d in defs[name]:
             env = {p: (args[j] if j < len(args) else ("leaf", True, True)) for j, p in enumerate(d["generics"])}
             env["Self"] = ("app", i)
-            for f in d["fields"]:
+            for f, lab in zip(d["fields"], d["labels"]):
                 try:
-                    fields.append(g.term(parse_type(f), env))
+                    pt = parse_type(f)
+                    fields.append(g.term(pt, env))
                 except ValueError as e:
                     raise RuntimeError(f"{name} ({d['file']}): {e}")
-        nodes.append({"fields": fields, "files": sorted({d["file"] for d in defs[name]})})
+                for kind in sorted(interior_kinds(pt)):
+                    interior.append(f"{name}.{lab}: {kind}")
+                # an interior-mutable type passed as a generic argument of this instantiation
+                for pn, pv in env.items():
+                    if pn != "Self" and re.search(r"\b" + re.escape(pn) + r"\b", f) and pv[0] in ("mutex", "rwlock", "cell"):
+                        interior.append(f"{name}.{lab}: {pv[0]} (through parameter {pn})")
+        nodes.append({"fields": fields, "files": sorted({d["file"] for d in defs[name]}), "interior": sorted(set(interior))})
         i += 1
         if len(g.order) > 5000:
             raise RuntimeError("instantiation does not terminate (polymorphic recursion?)")
@@ -373,6 +416,30 @@ def py_rounds(order, nodes):
     raise RuntimeError("no fixpoint")
 
 
+def reachable_from_root(nodes):
+    reach, todo = set(), [0]
+    def succ(t):
+        if t[0] == "app": return [t[1]]
+        if t[0] == "leaf": return []
+        out = []
+        for a in t[1]: out += succ(a)
+        return out
+    while todo:
+        i = todo.pop()
+        if i in reach: continue
+        reach.add(i)
+        for f in nodes[i]["fields"]: todo += succ(f)
+    return reach
+
+
+def shared_mutable(nodes):
+    reach = reachable_from_root(nodes)
+    out = set(STATICS)
+    for i in reach:
+        out |= set(nodes[i]["interior"])
+    return sorted(out)
+
+
 def hook_assertions(repo):
     p = os.path.join(repo, "crates/emmylua_code_analysis/src/verif_send_sync.rs")
     if not os.path.exists(p):
@@ -421,6 +488,7 @@ def generate(root, repo, log):
     negs = sorted({i for t in neg for n in outer_names(t) for i in ids_by_base.get(n, [])})
     reach_unsafe = [u for u in unsafe_impls if u["type"] in ids_by_base]
     rounds, pysol = py_rounds(order, nodes)
+    shared = shared_mutable(nodes)
     out = ["import EmmyVerif.Model.AutoTrait",
            "/-! GENERATED by checklib/gen/tools_autotrait.py on every run from the Rust source text:",
            "the field graph of `EmmyLuaAnalysis` (every struct/enum/alias reachable through field types in",
@@ -442,10 +510,14 @@ def generate(root, repo, log):
             f"def notThreadSafe : List Nat := [{', '.join(map(str, negs))}]", "",
             "/-- types of the graph carrying a manual `unsafe impl Send/Sync` in the source (the derivation ignores them) -/",
             "def unsafeImpls : List Nat := [" + ", ".join(str(i) for i in sorted({i for u in reach_unsafe for i in ids_by_base[u["type"]]})) + "]", "",
+            "/-- shared mutable state: every interior-mutability field (Mutex / RwLock / Atomic* / Cell / RefCell / OnceLock / …)",
+            "of a type reachable from `EmmyLuaAnalysis` (so reachable from `&EmmyLuaAnalysis` / `&LuaDiagnostic`), and every",
+            "`static` with interior mutability, `static mut` or `thread_local!` of the two crates (test modules excluded) -/",
+            "def sharedMutable : List String := [" + ", ".join(json.dumps(x) for x in shared) + "]", "",
             "end Gen.AutoTraitGraph", ""]
     write_if_changed(os.path.join(root, "lean", "EmmyVerif", "Gen", "AutoTraitGraph.lean"), "\n".join(out))
     not_ss = [order[i] for i, v in enumerate(pysol) if not (v[0] and v[1])]
-    info = {"generator": "tools_autotrait", "nodes": len(order), "rounds": rounds, "not_send_sync_by_derivation": not_ss, "fields": sum(len(n["fields"]) for n in nodes),
+    info = {"generator": "tools_autotrait", "nodes": len(order), "rounds": rounds, "shared_mutable_state": shared, "not_send_sync_by_derivation": not_ss, "fields": sum(len(n["fields"]) for n in nodes),
             "components_asserted_by_hook": len(comp), "negative_assertions": len(negs),
             "unsafe_impls_in_graph": sorted({f"{u['trait']} for {u['type']} ({u['file']})" for u in reach_unsafe}),
             "unsafe_impls_all": sorted({f"{u['trait']} for {u['type']} ({u['file']})" for u in unsafe_impls})}
